@@ -977,6 +977,18 @@ func cases(args []string) {
 			jobs = append(jobs, job{i, 300 + rng.Intn(40000)})
 			continue
 		}
+		if tc.MustPass && !thorough {
+			// quick: a passed-through response is replayed at one size (small or at a buffer boundary)
+			if rng.Intn(2) == 0 {
+				jobs = append(jobs, job{i, 300 + rng.Intn(900)})
+			} else {
+				jobs = append(jobs, job{i, boundarySizes[rng.Intn(len(boundarySizes))]})
+			}
+			if bigAt[i] {
+				jobs = append(jobs, job{i, 3<<20 + rng.Intn(4096)})
+			}
+			continue
+		}
 		jobs = append(jobs, job{i, 300 + rng.Intn(900)})
 		if thorough {
 			for _, s := range boundarySizes {
